@@ -381,7 +381,8 @@ def gen_conf(rng):
     if m < 0.08: return 0
     if m < 0.25: return rng.randint(-150, 150)
     if m < 0.45: return -rng.randint(1, 10 ** 6)
-    if m < 0.90: return rng.randint(0, 10 ** 7)
+    if m < 0.75: return rng.randint(0, 10 ** 7)
+    if m < 0.90: return rng.randint(10 ** 7, 5 * 10 ** 9)      # long contig alignments: confidence beyond 2^17 (float32 would lose the cents)
     return 100 * rng.randint(-5000, 50000)
 
 
